@@ -34,6 +34,9 @@ Base == <<
   S(<<57344>>), S(<<65536>>),       \* U+E000 and U+10000: code point order and UTF-16 code unit order differ on this pair
   D(2021, 1, 1), D(2021, 1, 2), D(2020, 2, 29),
   T(10, 0, 0, 0, "utc", 0), T(11, 0, 0, 0, "utc", 0), T(12, 0, 0, 0, "offset", 3600),
+  \* readings of one zone that differ in the fraction of a second only; an evening and a morning time (a descending pair)
+  T(10, 0, 0, 500000000, "utc", 0), T(10, 0, 0, 700000000, "utc", 0), T(22, 0, 0, 0, "utc", 0), T(6, 0, 0, 0, "utc", 0),
+  DT(D(2021, 1, 1), T(10, 0, 0, 500000000, "utc", 0)), DT(D(2021, 1, 1), T(10, 0, 0, 700000000, "utc", 0)),
   DT(D(2021, 1, 1), T(10, 0, 0, 0, "utc", 0)), DT(D(2021, 1, 1), T(11, 0, 0, 0, "offset", 3600)), DT(D(2021, 1, 2), T(0, 0, 0, 0, "utc", 0)),
   \* one named zone on the days its offset changes: a local time that is skipped, one that is repeated, and ordinary ones
   DT(D(2021, 3, 28), TZ(2, 30, 0, "Europe/Warsaw")), DT(D(2021, 3, 28), TZ(12, 0, 0, "Europe/Warsaw")),
